@@ -301,6 +301,17 @@ def run_function_paths(prog, reg, con, case_assign, max_paths=400, quick_ms=300)
         except (_Break, _Continue):
             pr.status = 'unsupported'
             pr.detail = 'break/continue outside loop'
+        except (TypeError, AttributeError, KeyError, IndexError, ValueError, z3.Z3Exception) as e:
+            # a contract clause (or a model of a library call) could not be evaluated on this path of the
+            # current source: the path is undecided, never a violation and never a crash of the whole check
+            import traceback
+            tb = traceback.extract_tb(e.__traceback__)
+            where = '%s:%d' % (tb[-1].filename.split('/')[-1], tb[-1].lineno) if tb else '?'
+            pr.status = 'unsupported'
+            pr.detail = 'not evaluable on this path (%s: %s at %s)' % (type(e).__name__, str(e)[:120], where)
+            pr.obligations = ctx.obligations
+            pr.tags = ctx.path_tags
+            pr.ctx = ctx
         results.append(pr)
     # vacuity guard: a call site at which every outcome of the callee contract contradicts the caller state
     for site, (tried, ok) in callsites.items():
